@@ -164,7 +164,21 @@ fn run_program(text: &str, stdout_canon: bool) -> Outcome {
     let lines: Vec<String> = sim.stdout.iter().map(|(_, l)| l.clone()).collect();
     out.events += lines.len() as u64;
     if stdout_canon {
-        out.canon.push_str(&format!(" stdout#{}={:016x}", lines.len(), digest(&lines.join("\n"))));
+        // a printed line that may contain a union or struct rendering is compared as a multiset of
+        // characters: the only variation the property permits is the order of members / fields
+        let canon_lines: Vec<String> = lines
+            .iter()
+            .map(|l| {
+                if l.contains('|') || l.contains("struct{") {
+                    let mut cs: Vec<char> = l.chars().collect();
+                    cs.sort_unstable();
+                    cs.into_iter().collect()
+                } else {
+                    l.clone()
+                }
+            })
+            .collect();
+        out.canon.push_str(&format!(" stdout#{}={:016x}", lines.len(), digest(&canon_lines.join("\n"))));
     }
     out.raw.push_str(&format!(" stdout={lines:?}"));
     out
